@@ -123,6 +123,17 @@ pub fn gen16(rng: &mut Rng) -> Scn16 {
             .collect();
         reqs.push(ReqSpec { script, gap_ms: *rng.pick(&[0u64, 1, 10, 100]), abandon_after_ms: if rng.chance(1, 8) { Some(*rng.pick(&[0u64, 3, 7, 12, 30])) } else { None } });
     }
+    // a long outage: more consecutive failures than any small constant, with a policy whose delay
+    // still depends on the attempt number that far out
+    let (policy, max_attempts) = if rng.chance(1, 10) {
+        let n = rng.range(34, 48) as usize;
+        let mut script: Vec<Behaviour> = (0..n).map(|_| Behaviour { lat_ms: 0, out: Outcome::Err(0), yields: 0 }).collect();
+        script.push(Behaviour { lat_ms: 0, out: Outcome::Ok, yields: 0 });
+        reqs = vec![ReqSpec { script, gap_ms: 0, abandon_after_ms: None }];
+        (Policy::Custom((0..56u64).map(|k| 1 + k).collect()), *rng.pick(&[None, Some(60u32)]))
+    } else {
+        (policy, max_attempts)
+    };
     let observe_at_ms = (0..rng.range(0, 8)).map(|_| rng.below(160)).collect();
     let ready_fail_at = if rng.chance(1, 8) { Some(rng.below(6) as u32) } else { None };
     Scn16 { policy, max_attempts, retry_on_reconnect: !rng.chance(1, 5), predicate: rng.chance(1, 2), reqs, observe_at_ms, ready_fail_at }
@@ -131,8 +142,8 @@ pub fn gen16(rng: &mut Rng) -> Scn16 {
 pub fn valid16(s: &Scn16) -> bool {
     !s.reqs.is_empty()
         && s.reqs.len() <= 6
-        && s.max_attempts.map(|m| m <= 8).unwrap_or(true)
-        && s.reqs.iter().all(|r| !r.script.is_empty() && r.script.len() <= 14 && r.gap_ms <= 1000 && r.abandon_after_ms.map(|a| a <= 200).unwrap_or(true) && r.script.iter().all(|b| b.lat_ms <= 20 && matches!(b.out, Outcome::Ok | Outcome::Err(0) | Outcome::Err(1))))
+        && s.max_attempts.map(|m| m <= 64).unwrap_or(true)
+        && s.reqs.iter().all(|r| !r.script.is_empty() && r.script.len() <= 64 && r.gap_ms <= 1000 && r.abandon_after_ms.map(|a| a <= 200).unwrap_or(true) && r.script.iter().all(|b| b.lat_ms <= 20 && matches!(b.out, Outcome::Ok | Outcome::Err(0) | Outcome::Err(1))))
         && s.ready_fail_at.map(|k| k <= 16).unwrap_or(true)
         && s.observe_at_ms.len() <= 10
         && s.observe_at_ms.iter().all(|t| *t <= 2000)
@@ -141,7 +152,7 @@ pub fn valid16(s: &Scn16) -> bool {
             Policy::Fixed(d) => *d <= 100,
             Policy::Exponential { initial_ms, max_ms } => *initial_ms >= 1 && *initial_ms <= 50 && *max_ms >= 1 && *max_ms <= 5000,
             Policy::ExponentialRandom { initial_ms, max_ms, rf_eighths } => *initial_ms >= 1 && *initial_ms <= 50 && *max_ms >= 1 && *max_ms <= 5000 && *rf_eighths <= 8,
-            Policy::Custom(t) => !t.is_empty() && t.len() <= 8 && t.iter().all(|d| *d <= 100),
+            Policy::Custom(t) => !t.is_empty() && t.len() <= 64 && t.iter().all(|d| *d <= 100),
         }
         // an unbounded loop against a script that never succeeds would not end
         && (s.max_attempts.is_some() || !s.retry_on_reconnect || matches!(s.policy, Policy::None) || s.reqs.iter().all(|r| r.script.iter().any(|b| b.out == Outcome::Ok || (s.predicate && b.out == Outcome::Err(1)))))
